@@ -59,16 +59,12 @@ def main(argv):
                 cmd += ["--runs", runs]
             if tier:
                 cmd += ["--tier", tier]
-            c = sh(cmd, env=dict(os.environ, VERIF_REPO=scratch), cwd=VERIF, timeout=7200)
+            c = sh(cmd, env=dict(os.environ, VERIF_REPO=scratch, VERIF_REPLAYS=os.path.join(scratch, "replays")), cwd=VERIF, timeout=7200)
             sigs = sorted({l.strip()[10:] for l in c.stdout.splitlines() if l.strip().startswith("signature=")})
             verdict = {0: "MISSED", 1: "CAUGHT", 2: "HARNESS-ERROR"}.get(c.returncode, "exit%d" % c.returncode)
             rows.append((sid, prop, verdict + ("" if demo_ok else " (demo check failed: patched rc=%d clean rc=%d)" % (dm.returncode, dc.returncode)), "; ".join(sigs[:2])))
         finally:
             shutil.rmtree(scratch, ignore_errors=True)
-            rp = os.path.join(VERIF, "replays")
-            for f in os.listdir(rp) if os.path.isdir(rp) else []:
-                if f.startswith(prop + "-") and f.endswith(".json"):
-                    os.remove(os.path.join(rp, f))
         print("%-16s %-4s %-14s %s" % rows[-1], flush=True)
     rp = os.path.join(SEEDED, "RESULTS.json")
     try:
